@@ -220,6 +220,10 @@ def descriptions(ctx):
                                      ("inject/empty-description", {"reply": b"", "status": status, "description": ""}, ""),
                                      ("inject/description", {"reply": b"", "status": status, "description": "x y"}, "x y")):
                 paths.append((label, lambda c=c, inj=inj: c.service.f("x", __inject=dict(inj)), want))
+            # the caller's injection dict is only read: used again for the next call it means the same
+            shared = {"reply": b"", "status": status, "description": "again"}
+            paths.append(("inject/same-dict/first", lambda c=c, shared=shared: c.service.f("x", __inject=shared), "again"))
+            paths.append(("inject/same-dict/second", lambda c=c, shared=shared: c.service.f("x", __inject=shared), "again"))
             te = suds.transport.TransportError("reason text", status, io.BytesIO(b""))
             c4 = wsdlkit.client(w, faults=faults, transport=wsdlkit.RecordingTransport(reply=te))
             paths.append(("transport-error", lambda c4=c4: c4.service.f("x"), "reason text"))
